@@ -323,6 +323,12 @@ def check(prop, tier, seed):
             channels.append(st)
             if st.get("error"):
                 broken.append({"kind": "channel", "name": ch, "detail": st["error"]})
+            elif st["disagreements"] and ch in cfg.get("channel_is_property", []):
+                # the property IS agreement with the reference on this channel: a disagreeing request is a failing input
+                for d in st["diffs"][:5]:
+                    violations.append({"key": "request:" + d["request"][:200], "input": d["request"].split(" ")[-1], "entry": ch,
+                                       "detail": "implementation: %s ; reference: %s" % (d["go"][-600:], d["lean"][-600:])})
+                broken.append({"kind": "channel", "name": ch, "detail": "%d of %d requests differ" % (st["disagreements"], st["requests"])})
             elif st["disagreements"]:
                 broken.append({"kind": "channel", "name": ch,
                                "detail": "%d of %d requests differ; first: %s" % (st["disagreements"], st["requests"], json.dumps(st["diffs"][0])[:1500]),
